@@ -6,6 +6,8 @@ BINOPS = {"|": "BUnion", "&": "BInter", "&~": "BDiff", "~~": "BSymDiff", "with":
           "++": "BConcat", "+": "BAdd", "-": "BSub", "*": "BMul", "+>": "BMerge", "\\": "BOffset"}
 CMPOPS = {"<:": "CMem", "!<:": "CNotMem", "=": "CEq", "!=": "CNe", "<": "CLt", ">": "CGt", "<=": "CLe", ">=": "CGe",
           "(<)": "CSub", "(>)": "CSup", "(<=)": "CSubEq", "(>=)": "CSupEq", "(<>)": "CSubSup", "(<>=)": "CSubSupEq"}
+JOINOPS = {"<&>": "JJoin", "<->": "JCompose", "-&-": "JCommon", "---": "JExists", "-&>": "JRightMatch", "<&-": "JLeftMatch",
+           "-->": "JRightResidue", "<--": "JLeftResidue"}
 UNOPS = {"-": "UNeg", "count": "UCount", "^": "UPow", "!": "UNot"}
 
 IDENT_OK = __import__("re").compile(r"^[A-Za-z_][0-9A-Za-z_]*$|^@[A-Za-z_]*$|^\.$")
@@ -73,6 +75,10 @@ def and_(a, b): return ("and", a, b)
 def or_(a, b): return ("or", a, b)
 def cond(arms, dflt=None): return ("cond", list(arms), dflt)
 def condpat(c, arms): return ("condpat", c, list(arms))
+def join(op, a, b): return ("join", op, a, b)
+def nest(names, n, a, inv=False): return ("nest", inv, list(names), n, a)
+def single_nest(n, a): return ("snest", n, a)
+def rank(a, f): return ("rank", a, f)
 def var(x): return ("var", x)
 def true_(): return ("true",)
 def false_(): return ("set", [])
@@ -160,6 +166,14 @@ def src(e):
         return "(cond %s {" % src(e[1]) + ", ".join("%s: %s" % (psrc(p), src(v)) for p, v in e[2]) + "})"
     if k == "var":
         return e[1]
+    if k == "join":
+        return "(%s %s %s)" % (src(e[2]), e[1], src(e[3]))
+    if k == "nest":
+        return "(%s nest %s|%s|%s)" % (src(e[4]), "~" if e[1] else "", ", ".join(e[2]), e[3])
+    if k == "snest":
+        return "(%s nest %s)" % (src(e[2]), e[1])
+    if k == "rank":
+        return "(%s rank %s)" % (src(e[1]), fsrc(e[2]))
     raise ValueError(k)
 
 
@@ -283,6 +297,14 @@ def coq(e):
         return "(ECondPat %s [" % coq(e[1]) + "; ".join("(%s, %s)" % (pcoq(p), coq(v)) for p, v in e[2]) + "])"
     if k == "var":
         return "(EVar %s)" % cname(e[1])
+    if k == "join":
+        return "(EJoin %s %s %s)" % (JOINOPS[e[1]], coq(e[2]), coq(e[3]))
+    if k == "nest":
+        return "(ENest %s [%s] %s %s)" % ("true" if e[1] else "false", "; ".join(cname(n) for n in e[2]), cname(e[3]), coq(e[4]))
+    if k == "snest":
+        return "(ESingleNest %s %s)" % (cname(e[1]), coq(e[2]))
+    if k == "rank":
+        return "(ERank %s %s)" % (coq(e[1]), coq(e[2]))
     raise ValueError(k)
 
 
